@@ -457,6 +457,12 @@ class Run:
         if st == 'inconclusive' and h.get('optional') and 'timeout' in rec['why']:
             rec['verdict'] = 'no-verdict(optional)'   # attempted, not counted, not claimed
             return
+        if st == 'inconclusive' and self.tier == 'thorough' and rec['why'].startswith('timeout'):
+            # thorough tier: a query that exhausts its time budget is recorded as unexplored (not counted as held, listed in the evidence and on stdout);
+            # the quick tier stays strict, so a query that silently stops returning is noticed on every change
+            rec['verdict'] = 'no-verdict(timeout)'
+            with LOCK: self.__dict__.setdefault('no_verdicts', []).append(qn)
+            return
         if st in ('inconclusive', 'unwind', 'vacuous'):
             with LOCK: self.problems.append('%s: %s (%s)' % (qn, st, rec['why']))
             return
@@ -541,11 +547,12 @@ class Run:
                 print('VIOLATION property=%s replay=%s' % (self.pid, path))
                 print('  harness %s: %s' % (qn, desc))
             return 1
-        if not self.queries: self.problems.append('no query was run (nothing matched / nothing built): an empty run proves nothing')
+        if not any(q['verdict'] == 'holds' for q in self.queries): self.problems.append('no query returned "holds" (nothing matched / nothing built / nothing returned): an empty run proves nothing')
         if self.problems:
             for p in self.problems: print('INCONCLUSIVE: ' + p)
             return 2
-        print('OK property=%s tier=%s queries=%d wall=%.0fs' % (self.pid, self.tier, len(self.queries), wall))
+        for qn in self.__dict__.get('no_verdicts', []): print('NO-VERDICT: %s (time budget exhausted; not counted as held)' % qn)
+        print('OK property=%s tier=%s queries=%d held=%d wall=%.0fs' % (self.pid, self.tier, len(self.queries), len([q for q in self.queries if q['verdict'] == 'holds']), wall))
         return 0
 
     def write_evidence(self, wall, work):
